@@ -16,10 +16,12 @@ import (
 	"testing"
 	"time"
 
+	"github.com/plgd-dev/go-coap/v3/message/codes"
 	"github.com/plgd-dev/go-coap/v3/message/pool"
 	"github.com/plgd-dev/go-coap/v3/net/monitor/inactivity"
 	"github.com/plgd-dev/go-coap/v3/net/responsewriter"
 	"github.com/plgd-dev/go-coap/v3/options"
+	"github.com/plgd-dev/go-coap/v3/options/config"
 	tcpclient "github.com/plgd-dev/go-coap/v3/tcp/client"
 	udpclient "github.com/plgd-dev/go-coap/v3/udp/client"
 
@@ -36,10 +38,10 @@ const (
 	sRecv sym = iota
 	sPongC
 	sPongS
-	sTickM  // now = last receive + period - eps  (alive)
-	sTickP  // now = last receive + period + eps  (first tick after a full period)
-	sTickPP // now = last receive + 3*period
-	sTickPF // like tick+, but the ping cannot be sent (the write fails); KeepAlive object layer only
+	sTickM   // now = last receive + period - eps  (alive)
+	sTickP   // now = last receive + period + eps  (first tick after a full period)
+	sTickPP  // now = last receive + 3*period
+	sTickPF  // like tick+, but the ping cannot be sent (the write fails); KeepAlive object layer only
 	sPartial // some more bytes of a frame that never completes arrive (stream connections only): not a message
 	sTickJ   // now = last received MESSAGE + period + 10 ms (used after sPartial, which arrives >= 30 ms after that message)
 	nSyms
@@ -131,7 +133,7 @@ func keepAliveObject(rec *vr.Rec, events []sym, retries int) {
 		return func() { p.cancelled = true }, nil
 	})
 	fc := &fakeConn{}
-	u := 0 // consecutive unanswered pings since the last reset
+	u := 0           // consecutive unanswered pings since the last reset
 	curSent := false // the newest ping attempt reached the wire
 	for i, e := range events {
 		switch e {
@@ -233,17 +235,53 @@ type connDriver interface {
 // ---- udp
 
 type udpDriver struct {
-	s        *sim.MemSession
-	cc       *udpclient.Conn
-	inact    atomic.Int32
-	handled  atomic.Int32
-	pingMIDs []uint16
-	seen     int
-	mid      uint16
+	notFinished atomic.Int32
+	s           *sim.MemSession
+	cc          *udpclient.Conn
+	inact       atomic.Int32
+	handled     atomic.Int32
+	finished    atomic.Int32 // messages taken from the receive queue and processed to the end (handler AND what follows it)
+	pingMIDs    []uint16
+	seen        int
+	mid         uint16
+}
+
+// mkUDPDriver builds a connection guarded by mon. Completion of queued messages is observed through the connection's own
+// ProcessReceivedMessage configuration entry - never guessed from elapsed time: the receive path stamps activity a second
+// time AFTER a queued message was handled, and a verdict taken before that is a verdict about the scheduler.
+func mkUDPDriver(mon udpclient.InactivityMonitor) *udpDriver {
+	d := &udpDriver{s: sim.NewMemSession(), mid: 1000}
+	d.cc = sim.NewUDPConn(d.s, sim.UDPOpts{
+		Handler:     func(w *responsewriter.ResponseWriter[*udpclient.Conn], r *pool.Message) { d.handled.Add(1) },
+		ConnOptions: []udpclient.Option{udpclient.WithInactivityMonitor(mon)},
+		Mutate: func(c *udpclient.Config) {
+			c.GetMID = func() int32 { return 40000 + 0xffff/2 }
+			inner := c.ProcessReceivedMessage
+			if inner == nil {
+				inner = func(req *pool.Message, cc *udpclient.Conn, h config.HandlerFunc[*udpclient.Conn]) {
+					cc.ProcessReceivedMessageWithHandler(req, h)
+				}
+			}
+			c.ProcessReceivedMessage = func(req *pool.Message, cc *udpclient.Conn, h config.HandlerFunc[*udpclient.Conn]) {
+				inner(req, cc, h)
+				d.finished.Add(1)
+			}
+		},
+	})
+	return d
+}
+
+// queued injects a datagram that goes through the receive queue and waits until it was processed to the end.
+func (d *udpDriver) queued(data []byte) {
+	n := d.finished.Load()
+	_ = d.cc.Process(nil, data)
+	if !sim.WaitFor(5*time.Second, func() bool { return d.finished.Load() > n || d.closed() }) {
+		d.notFinished.Add(1)
+	}
 }
 
 func newUDPDriver(keepAlive bool, retries int, period time.Duration) (*udpDriver, time.Time, time.Time) {
-	d := &udpDriver{s: sim.NewMemSession(), mid: 1000}
+	var d *udpDriver
 	cfg := udpclient.DefaultConfig
 	onInactive := func(cc *udpclient.Conn) { d.inact.Add(1); _ = cc.Close() }
 	if keepAlive {
@@ -254,11 +292,7 @@ func newUDPDriver(keepAlive bool, retries int, period time.Duration) (*udpDriver
 	lo := time.Now()
 	mon := cfg.CreateInactivityMonitor()
 	hi := time.Now()
-	d.cc = sim.NewUDPConn(d.s, sim.UDPOpts{
-		Handler:     func(w *responsewriter.ResponseWriter[*udpclient.Conn], r *pool.Message) { d.handled.Add(1) },
-		ConnOptions: []udpclient.Option{udpclient.WithInactivityMonitor(mon)},
-		Mutate:      func(c *udpclient.Config) { c.GetMID = func() int32 { return 40000 + 0xffff/2 } },
-	})
+	d = mkUDPDriver(mon)
 	return d, lo, hi
 }
 
@@ -280,9 +314,7 @@ func (d *udpDriver) recv(kind int) (time.Time, time.Time) {
 		_ = d.cc.Process(nil, ref.EncodeUDP(ref.Msg{Type: 2, Code: 0, MID: d.mid}))
 	} else {
 		// non-confirmable request handled by a handler that does not answer
-		n := d.handled.Load()
-		_ = d.cc.Process(nil, ref.EncodeUDP(ref.Msg{Type: 1, Code: 1, MID: d.mid, Token: []byte{byte(d.mid), 7}, Opts: []ref.Opt{{ID: 11, Val: []byte("x")}}}))
-		sim.WaitFor(10*time.Second, func() bool { return d.handled.Load() > n })
+		d.queued(ref.EncodeUDP(ref.Msg{Type: 1, Code: 1, MID: d.mid, Token: []byte{byte(d.mid), 7}, Opts: []ref.Opt{{ID: 11, Val: []byte("x")}}}))
 	}
 	return lo, time.Now()
 }
@@ -291,10 +323,8 @@ func (d *udpDriver) pings() int { d.scan(); return len(d.pingMIDs) }
 func (d *udpDriver) pong(idx int) (time.Time, time.Time) {
 	d.scan()
 	lo := time.Now()
-	_ = d.cc.Process(nil, ref.EncodeUDP(ref.Msg{Type: 3, Code: 0, MID: d.pingMIDs[idx]}))
-	// a reset that matches no pending message goes through the receive queue; give the
-	// reader loop the time to stamp it (eps is orders of magnitude larger)
-	time.Sleep(200 * time.Microsecond)
+	// a reset goes through the receive queue whether or not it matches a pending ping
+	d.queued(ref.EncodeUDP(ref.Msg{Type: 3, Code: 0, MID: d.pingMIDs[idx]}))
 	return lo, time.Now()
 }
 func (d *udpDriver) tick(now time.Time)   { d.cc.CheckExpirations(now) }
@@ -305,29 +335,42 @@ func (d *udpDriver) close()               { _ = d.cc.Close() }
 // ---- tcp
 
 type tcpDriver struct {
-	sc       *sim.ScriptConn
-	cc       *tcpclient.Conn
-	inact    atomic.Int32
-	handled  atomic.Int32
-	pingToks [][]byte
-	tok      uint16
+	sc          *sim.ScriptConn
+	cc          *tcpclient.Conn
+	inact       atomic.Int32
+	handled     atomic.Int32
+	pongs       atomic.Int32 // pong signals processed to the end by the connection (its signal-received callback)
+	notFinished atomic.Int32
+	pingToks    [][]byte
+	tok         uint16
 
 	partialStarted bool
 }
 
 func newTCPDriver(keepAlive bool, retries int, period time.Duration) (*tcpDriver, time.Time, time.Time, error) {
-	d := &tcpDriver{sc: sim.NewScriptConn()}
+	var d *tcpDriver
 	onInactive := func(cc *tcpclient.Conn) { d.inact.Add(1); _ = cc.Close() }
+	d, lo, hi, err := mkTCPDriver(func(cfg *tcpclient.Config) func() tcpclient.InactivityMonitor {
+		if keepAlive {
+			options.WithKeepAlive(uint32(retries), period*time.Duration(retries+1), onInactive).TCPClientApply(cfg)
+		} else {
+			options.WithInactivityMonitor(period, onInactive).TCPClientApply(cfg)
+		}
+		return cfg.CreateInactivityMonitor
+	})
+	return d, lo, hi, err
+}
+
+// mkTCPDriver builds a stream connection whose monitor comes from the factory that configure returns. A pong is a signal:
+// the connection handles it on its reading goroutine and then reports it through its signal-received callback, which is
+// what pong() waits for (not an amount of time).
+func mkTCPDriver(configure func(cfg *tcpclient.Config) func() tcpclient.InactivityMonitor) (*tcpDriver, time.Time, time.Time, error) {
+	d := &tcpDriver{sc: sim.NewScriptConn()}
 	var lo, hi time.Time
 	cc, err := sim.NewTCPConn(d.sc, sim.TCPOpts{
 		Handler: func(w *responsewriter.ResponseWriter[*tcpclient.Conn], r *pool.Message) { d.handled.Add(1) },
 		Mutate: func(cfg *tcpclient.Config) {
-			if keepAlive {
-				options.WithKeepAlive(uint32(retries), period*time.Duration(retries+1), onInactive).TCPClientApply(cfg)
-			} else {
-				options.WithInactivityMonitor(period, onInactive).TCPClientApply(cfg)
-			}
-			inner := cfg.CreateInactivityMonitor
+			inner := configure(cfg)
 			cfg.CreateInactivityMonitor = func() tcpclient.InactivityMonitor {
 				lo = time.Now()
 				m := inner()
@@ -337,6 +380,13 @@ func newTCPDriver(keepAlive bool, retries int, period time.Duration) (*tcpDriver
 		},
 	})
 	d.cc = cc
+	if err == nil {
+		cc.SetTCPSignalReceivedHandler(func(code codes.Code) {
+			if code == codes.Pong {
+				d.pongs.Add(1)
+			}
+		})
+	}
 	return d, lo, hi, err
 }
 
@@ -380,9 +430,11 @@ func (d *tcpDriver) pings() int { d.scan(); return len(d.pingToks) }
 func (d *tcpDriver) pong(idx int) (time.Time, time.Time) {
 	d.scan()
 	lo := time.Now()
+	n := d.pongs.Load()
 	d.sc.Feed(ref.EncodeTCP(ref.Msg{Code: 7<<5 | 3, Token: d.pingToks[idx]}))
-	d.sc.WaitConsumed(10 * time.Second)
-	time.Sleep(300 * time.Microsecond) // frame parsed and stamped right after the read returns
+	if !sim.WaitFor(5*time.Second, func() bool { return d.pongs.Load() > n || d.closed() }) {
+		d.notFinished.Add(1)
+	}
 	return lo, time.Now()
 }
 func (d *tcpDriver) tick(now time.Time)   { d.cc.CheckExpirations(now) }
@@ -457,7 +509,7 @@ func runConn(rec *vr.Rec, layer string, d connDriver, lo, hi time.Time, keepAliv
 			switch {
 			case failing <= retries:
 				if d.closed() {
-					rec.Violation("C18/"+layer+"/closed-before-retries-exhausted", fmt.Sprintf("event %d: closed at consecutive failing tick %d since the last received message, retries %d", i, failing, retries), c)
+					rec.Violation("C18/"+layer+"/closed-before-retries-exhausted", fmt.Sprintf("event %d: closed at consecutive failing tick %d since the last received message, retries %d (on-inactive calls %d, pings on the wire %d->%d)", i, failing, retries, d.onInactiveCalls(), np, d.pings()), c)
 					return
 				}
 				if !pinged {
@@ -634,6 +686,7 @@ func TestRun(t *testing.T) {
 	}
 	wg.Wait()
 	groups(rec, vr.Scale(40, 1500), seed)
+	slowHandshake(rec, vr.Scale(4, 24))
 	rec.Assume("'closed only after more than the configured number of consecutive pings went unanswered' is read tolerantly: with R retries, closing at the (R+1)-th or the (R+2)-th consecutive failing tick is accepted, earlier is a violation, later is a violation")
 	rec.Assume("on a real connection a late pong for a superseded ping is itself a received message and therefore resets the count; the not-credited rule is checked on the KeepAlive object")
 	rec.Assume("server-side wiring is covered by the group runs: one option applied once to a udp/dtls/tcp server configuration (and to client configurations), R+2..R+6 connections created from that configuration's monitor factory, each judged by the single-connection model while its siblings run concurrently")
